@@ -111,7 +111,7 @@ def FieldSpec (good : Nat → Bool → Val → Prop) (z : Nat → Val) (plainTru
   (f.mask.isSome = true → f.tl2bit.isSome = true) ∧ (isTrue f.ty = true → plainTrue f.ty = true) ∧
   (if f.omitted then v = none
    else if f.isBit then f.tl2bit.isSome = true ∧ (v = none ∨ v = some (z f.ty))
-   else if plainTrue f.ty then f.tl2bit.isSome = false ∧ v = some (z f.ty)
+   else if plainTrue f.ty then f.tl2bit.isSome = false ∧ v = some (z f.ty) ∧ good f.ty true (z f.ty)
    else if f.tl2bit.isSome then (match v with | none => True | some x => good f.ty false x)
    else (match v with | some x => good f.ty true x | none => False))
 
@@ -155,7 +155,7 @@ theorem field_roundtrip (H : FieldCodecs good enc rd z)
       by_cases hp : plainTrue f.ty = true
       · -- field of an empty struct type without presence bit: never written, always holds the zero value
         simp only [hp, if_true] at hs
-        obtain ⟨htb, hv⟩ := hs
+        obtain ⟨htb, hv, _⟩ := hs
         subst hv
         simp only [htb, Bool.false_eq_true, if_false] at he
         have hr := HT _ _ hp he
@@ -300,7 +300,7 @@ theorem field_absent (H : FieldCodecs good enc rd z)
     · simp only [hb, Bool.false_eq_true, if_false] at hs
       by_cases hp : plainTrue f.ty = true
       · simp only [hp, if_true] at hs
-        obtain ⟨htb, hv⟩ := hs
+        obtain ⟨htb, hv, _⟩ := hs
         subst hv
         have hm : f.mask.isSome = false := by
           cases hh : f.mask.isSome with
@@ -1370,5 +1370,191 @@ theorem tl2_roundtrip_gen (d : Desc) : ∀ fuel, RT d fuel := by
                 have : ¬ ((e :: es').length > cbytes.length) := by omega
                 simp only [this, if_false, hk, hrd0, hnorm]
           | _ => exact absurd hg (by simp)
+
+/-! ### the writer is total on the covered values -/
+
+theorem goodPrim_enc (k : PrimK) (zie : Bool) (v : Val) (h : goodPrim k zie v = true) :
+    ∃ r, encPrim k zie v = .ok r := by
+  cases k <;> cases v <;> (try exact ⟨_, encPrim_eq _ _ _ _ rfl⟩) <;> exact absurd h (by simp [goodPrim])
+
+section total
+variable {good : Nat → Bool → Val → Prop} {enc : Enc} {z : Nat → Val} {plainTrue isTrue : Nat → Bool}
+
+theorem encField_ok (E : ∀ ty zie x, good ty zie x → ∃ r, enc ty zie x = .ok r)
+    (f : Field) (v : Option Val) (hs : FieldSpec good z plainTrue isTrue f v) :
+    ∃ r, encField enc f v = .ok r := by
+  obtain ⟨_, _, hs⟩ := hs
+  unfold encField
+  by_cases ho : f.omitted = true
+  · simp only [ho, if_true]; exact ⟨_, rfl⟩
+  · simp only [ho, Bool.false_eq_true, if_false] at hs ⊢
+    by_cases hb : f.isBit = true
+    · simp only [hb, if_true] at hs
+      obtain ⟨htb, hv⟩ := hs
+      simp only [htb, if_true]
+      rcases hv with hv | hv <;> subst hv
+      · exact ⟨_, rfl⟩
+      · simp only [hb, if_true]; exact ⟨_, rfl⟩
+    · simp only [hb, Bool.false_eq_true, if_false] at hs
+      by_cases hp : plainTrue f.ty = true
+      · simp only [hp, if_true] at hs
+        obtain ⟨htb, hv, hgz⟩ := hs
+        subst hv
+        simp only [htb, Bool.false_eq_true, if_false]
+        exact E _ _ _ hgz
+      · simp only [hp, Bool.false_eq_true, if_false] at hs
+        by_cases htb : f.tl2bit.isSome = true
+        · simp only [htb, if_true] at hs ⊢
+          cases v with
+          | none => exact ⟨_, rfl⟩
+          | some x => simp only [hb, Bool.false_eq_true, if_false]; exact E _ _ _ hs
+        · simp only [htb, Bool.false_eq_true, if_false] at hs ⊢
+          cases v with
+          | none => exact absurd hs (by simp)
+          | some x => exact E _ _ _ hs
+
+theorem encFields_ok (E : ∀ ty zie x, good ty zie x → ∃ r, enc ty zie x = .ok r) :
+    ∀ (fs : List Field) (vs : List (Option Val)), GoodFields good z plainTrue isTrue fs vs →
+      ∃ rs, encFieldsWith enc fs vs = .ok rs := by
+  intro fs
+  induction fs with
+  | nil =>
+    intro vs hg
+    cases vs with
+    | nil => exact ⟨_, rfl⟩
+    | cons _ _ => exact absurd hg (by simp [GoodFields])
+  | cons f fs ih =>
+    intro vs hg
+    cases vs with
+    | nil => exact absurd hg (by simp [GoodFields])
+    | cons v vs =>
+      obtain ⟨hs, hg'⟩ := hg
+      obtain ⟨r, hr⟩ := encField_ok E f v hs
+      obtain ⟨rs, hrs⟩ := ih vs hg'
+      exact ⟨r :: rs, by simp only [encFieldsWith, hr, hrs]⟩
+
+theorem encElems_ok (E : ∀ ty zie x, good ty zie x → ∃ r, enc ty zie x = .ok r) (ty : Nat) :
+    ∀ (es : List Val), (∀ e ∈ es, good ty false e) → ∃ c, encElemsWith enc ty es = .ok c := by
+  intro es
+  induction es with
+  | nil => intro _; exact ⟨_, rfl⟩
+  | cons e es ih =>
+    intro hg
+    obtain ⟨r, hr⟩ := E ty false e (hg e (List.mem_cons_self ..))
+    obtain ⟨c, hc⟩ := ih (fun e' he' => hg e' (List.mem_cons_of_mem _ he'))
+    exact ⟨optBytes r ++ c, by simp only [encElemsWith, hr, hc]⟩
+
+end total
+
+/-- **the writer is total** on the covered values (no shape / descriptor / fuel error) -/
+theorem good_enc_ok (d : Desc) : ∀ (fuel ty : Nat) (zie : Bool) (v : Val),
+    Good d fuel ty zie v → ∃ r, encTL2 d fuel ty zie v = .ok r := by
+  intro fuel
+  induction fuel with
+  | zero => intro ty zie v hg; exact absurd hg (by simp [Good])
+  | succ fuel ih =>
+    intro ty zie v hg
+    unfold Good at hg
+    obtain ⟨hlen, hg⟩ := hg
+    unfold encTL2
+    cases hty : d.get? ty with
+    | none => rw [hty] at hg; exact absurd hg (by simp)
+    | some inst =>
+      rw [hty] at hg
+      cases inst with
+      | prim k => exact goodPrim_enc k zie v hg
+      | struct s =>
+        simp only [] at hg ⊢
+        by_cases hal : ((s.isAlias || s.isUnwrap) && !s.isUnionElement) = true
+        · simp only [hal, if_true] at hg ⊢
+          split at hg
+          · rename_i f x hfs
+            rw [hfs]
+            exact ih _ _ _ hg.2
+          · exact absurd hg (by simp)
+        · simp only [hal, Bool.false_eq_true, if_false] at hg ⊢
+          obtain ⟨_, hg⟩ := hg
+          cases v with
+          | struct vs =>
+            simp only [] at hg ⊢
+            obtain ⟨rs, hrs⟩ := encFields_ok ih s.fields vs hg
+            rw [hrs]; exact ⟨_, rfl⟩
+          | _ => exact absurd hg (by simp)
+      | union u =>
+        simp only [] at hg ⊢
+        cases v with
+        | union i x =>
+          simp only [] at hg ⊢
+          cases hv : u.variants[i]? with
+          | none => rw [hv] at hg; exact absurd hg (by simp)
+          | some p =>
+            obtain ⟨vi, nm⟩ := p
+            rw [hv] at hg
+            simp only [] at hg ⊢
+            obtain ⟨_, hg⟩ := hg
+            by_cases hm : (u.isMaybe && i != 0) = true
+            · simp only [hm, if_true] at hg ⊢
+              obtain ⟨_, hg⟩ := hg
+              cases hvi : d.get? vi with
+              | none => rw [hvi] at hg; exact absurd hg (by simp)
+              | some vinst =>
+                rw [hvi] at hg
+                cases vinst with
+                | struct vs =>
+                  cases x with
+                  | struct xs =>
+                    cases xs with
+                    | nil => exact absurd hg (by simp)
+                    | cons o t =>
+                      cases o with
+                      | none => exact absurd hg (by simp)
+                      | some y =>
+                        cases t with
+                        | cons _ _ => exact absurd hg (by simp)
+                        | nil =>
+                          simp only [] at hg ⊢
+                          cases hflds : vs.fields with
+                          | nil => rw [hflds] at hg; exact absurd hg (by simp)
+                          | cons f ft =>
+                            cases ft with
+                            | cons _ _ => rw [hflds] at hg; exact absurd hg (by simp)
+                            | nil =>
+                              rw [hflds] at hg
+                              simp only [] at hg ⊢
+                              obtain ⟨r, hr⟩ := ih _ _ _ hg
+                              rw [hr]; exact ⟨_, rfl⟩
+                  | _ => exact absurd hg (by simp)
+                | _ => exact absurd hg (by simp)
+            · simp only [hm, Bool.false_eq_true, if_false] at hg ⊢
+              exact ih _ _ _ hg
+        | _ => exact absurd hg (by simp)
+      | array a =>
+        simp only [] at hg ⊢
+        cases v with
+        | arr es =>
+          simp only [] at hg ⊢
+          obtain ⟨_, hfix, hnb, hge⟩ := hg
+          have hc1 : (a.isTuple && !a.dynamic && decide (es.length ≠ a.count)) = false := by
+            cases hfx : (a.isTuple && !a.dynamic) with
+            | false => rfl
+            | true => simp [hfix hfx]
+          rw [hc1]
+          simp only [Bool.false_eq_true, if_false, hnb]
+          split
+          · exact ⟨_, rfl⟩
+          · obtain ⟨c, hc⟩ := encElems_ok ih a.elem.ty es hge
+            rw [hc]; exact ⟨_, rfl⟩
+        | _ => exact absurd hg (by simp)
+      | dict a =>
+        simp only [] at hg ⊢
+        cases v with
+        | arr es =>
+          simp only [] at hg ⊢
+          obtain ⟨_, _, hge⟩ := hg
+          split
+          · exact ⟨_, rfl⟩
+          · obtain ⟨c, hc⟩ := encElems_ok ih a.elem.ty es hge
+            rw [hc]; exact ⟨_, rfl⟩
+        | _ => exact absurd hg (by simp)
 
 end TLVerif.Codec
